@@ -23,7 +23,12 @@ PROP = dict(
                 "judged by `decide` theorems [key_covers_reads, code_shape]. Options containing NaN/Inf (json.Marshal fails) are keyed by the Go-syntax text "
                 "of the whole key struct and are covered by the same theorems; what the earlier query+limit fallback did is kept as a witness theorem "
                 "[old_fallback_breaks_transparency] and as the always-on monitor class nan-key-fallback."),
-    level_note=("Assumed, not proved: SHA-256 collision-freedom, injectivity of encoding/json on the modelled JSON view and of fmt's %#v on the modelled Go-syntax view (one hypothesis `enc` injective); "
+    level_note=("Assumed, not proved: `enc` injective in Props/C05.lean; Props/C05b.lean reduces that hypothesis: there enc = hash o (modelled text of the key struct, Model/KeyJson.lean, "
+                "validated byte for byte against the real json.Marshal by the keyjson correspondence) and the injectivity of the JSON text on the key view is a theorem "
+                "[key_text_injective, enc_separates, transparent_keyed(_finite), no_sharing_keyed(_finite)]; what remains assumed there: (a) `hash` injective (SHA-256 collision-freedom), "
+                "(b) FloatFmtOK (strconv's float text is over [0-9.eE+-] and injective on finite 64-bit patterns; monitored: class float-format), (c) only for NaN/Inf requests GoTextOK "
+                "(fmt's %#v text injective on the Go-syntax view and starting with `s`; monitored: fallback-text-collision / fallback-text-shape), plus two facts that were hidden in "
+                "`enc` injective: NormValid (ToLower(TrimSpace(q)) is valid UTF-8; monitored: norm-query-invalid-utf8) and WellTyped (requests are well-typed Go values); "
                 "`EngineReadsOnly` (the answer depends on the options only through the selected fields, up to the omitempty identification nil≡empty, 0≡absent, "
                 "-0.0≡0.0, every invalid UTF-8 byte ≡ the \\ufffd escape, all NaNs alike) - backed by the translator's syntactic reads analysis (conservative name-based call graph, escape checks) "
                 "and by the monitor; `EngineNormalises` - backed by the regenerated fact that SearchUniversal's first use of the query is "
@@ -34,8 +39,11 @@ PROP = dict(
           "over a pool of 2-5 base requests with exact repeats, same-normal-form respellings (case incl. U+0130/U+212A, padding incl. NBSP/U+3000), "
           "single-field option deltas over every field of SearchOptions, typo-only / degenerate / long / invalid-UTF-8 queries, via all four entry points; plus a "
           "NaN/Inf stream, an eviction stream (>1000 distinct keys) and an aliasing probe. A case is non-trivial if it has at least one cache hit and at "
-          "least one of: single-field delta pair, database update, hit through a respelled query, expiry; distinct = distinct op sequences"),
-    assumptions=["enc injective: SHA-256 collision-free, JSON text injective on the key view, fallback keys disjoint from hashed keys",
+          "least one of: single-field delta pair, database update, hit through a respelled query, expiry; distinct = distinct op sequences. "
+          "Key-text stream (domain keyjson: groups of neighbouring requests over every field empty / non-empty, all string escape classes, extreme ints and floats, "
+          "maps with keys colliding after UTF-8 coercion): a case counts if a JSON text was produced that exercises an escape class or a non-scalar / boundary value"),
+    assumptions=["enc injective (C05.lean); in C05b.lean reduced to: hash injective (SHA-256 collision-free), FloatFmtOK (float text injective on finite values), GoTextOK (%#v text, NaN/Inf requests only), "
+                 "NormValid (normalised query is valid UTF-8), WellTyped (requests are well-typed Go values) - the injectivity of the JSON text on the key view is proved",
                  "EngineReadsOnly engineReads answer (syntactic reads analysis + omitempty identification respected by the engine)",
                  "EngineNormalises answer (regenerated fact engineNormalisesQuery)",
                  "no finiteness hypothesis: NaN/Inf requests are keyed by the %#v text (all NaNs print as NaN; the engine treats them alike)",
@@ -45,11 +53,15 @@ PROP = dict(
 
 THEOREMS = ["Wtf.C05." + t for t in (
     "key_covers_reads", "code_shape", "proj_sound", "query_norm_sound", "finite_marshalOK", "no_sharing", "inv", "transparent",
-    "update_clears", "disabled_bypasses", "switches_agree", "old_fallback_breaks_transparency")]
+    "update_clears", "disabled_bypasses", "switches_agree", "old_fallback_breaks_transparency",
+    # Props/C05b.lean: the key function spelled out as hash o (modelled text)
+    "key_names_ok", "key_text_injective", "key_families_disjoint", "enc_separates", "enc_separates_finite",
+    "transparent_keyed", "transparent_keyed_finite", "no_sharing_keyed", "no_sharing_keyed_finite", "norm_valid_model")]
 
 ASSERTIONS = ["cachekey:optionFields", "cachekey:keyFields", "cachekey:conv:SearchWithOptionsAndCache", "cachekey:conv:convertToCacheOptions",
               "cachekey:convertToCacheOptions:body", "cachekey:reads", "cachekey:SearchUniversal:query", "cachekey:generateCacheKey",
-              "cachekey:UpdateDatabase", "cachekey:get-put", "cachekey:SearchCache", "constants:typecheck", "lru:default-capacity"]
+              "cachekey:UpdateDatabase", "cachekey:get-put", "cachekey:SearchCache", "constants:typecheck", "lru:default-capacity",
+              "keyjson:keyStruct", "keyjson:marshal", "keyjson:no-custom-marshalers", "keyjson:json-names", "keyjson:kinds"]
 
 BOOL_FACTS = ["engineNormalisesQuery", "keyNormalisesQuery", "updateInvalidates", "putMatchesGet", "putOnlyNonEmpty", "monitoredDelegates"]
 
@@ -61,6 +73,13 @@ def nontrivial(tags, ops, impl):
 
 def nontrivial_nan(tags, ops, impl):
     return tags.get("hit", 0) > 0 and tags.get("nonfinite-options", 0) > 0
+
+
+def nontrivial_keyjson(tags, ops, impl):
+    """a case of the key-text domain counts if a JSON text was produced and it exercised an escape class or a non-scalar / boundary value"""
+    g = lambda k: tags.get(k, 0) > 0
+    return g("json") and any(g(k) for k in ("esc-quote", "esc-backslash", "esc-short", "esc-control", "esc-html", "esc-2028", "esc-invalid", "genuine-fffd",
+                                            "val-null", "val-negzero", "val-exp", "val-empty-array", "val-empty-object", "val-empty-string", "long-text", "float"))
 
 
 def fact_obligations(ctx):
@@ -196,7 +215,7 @@ def remin(ctx, domain):
 def run(ctx):
     ctx.stage_xlate(required_assertions=ASSERTIONS)
     missing, norm_broken = fact_obligations(ctx)
-    ctx.stage_prove(THEOREMS)
+    ctx.stage_prove(THEOREMS, extra_targets=["WtfModel.Props.C05b"])
     if not ctx.stage_build():
         return
     quick = ctx.tier == "quick"
@@ -218,6 +237,10 @@ def run(ctx):
     # aliasing between the caller's map / slice / result slice and the cache (values in the model: real code only)
     r = ctx.correspond("cachealias", 200 if quick else 1500, model=False, nontrivial=lambda t, o, i: t.get("alias-probe", 0) > 0, seed_offset=31, sample_n=1)
     shrink_hits(ctx, r, "cachealias")
+    # the text of the key: Model/KeyJson.lean against the bytes generateCacheKey hashes (json.Marshal of the key struct), every field
+    # empty / non-empty, strings over all escape classes, extreme ints and floats, maps with keys colliding after UTF-8 coercion; the
+    # monitor checks on the real keys that requests with different key views never share a key (class key-text-collision)
+    ctx.correspond("keyjson", 800 if quick else 10000, nontrivial=nontrivial_keyjson, seed_offset=53, sample_n=2)
     # directed search attached to a broken fact: concentrate the deltas on the fields that are read but not keyed,
     # respectively on respelled typo-only queries
     if missing:
